@@ -187,4 +187,33 @@ example : (filter2 exMon [(("T", "u1"), ru [("name", .atom (.str "b")), ("n", .a
     = [("u1", some [("name", .atom (.str "b"))])] := by decide
 end
 
+/-- what is reported for the rows of one part of an update does not depend on the rest of it: the
+    notification of an update is the notification of its parts, one after the other (rows of other tables,
+    reported or not, take nothing away: `Send2` sends whatever `filter2` yields unless all of it is empty) -/
+theorem filter2_append (m : Monitor) (u₁ u₂ : Updates) :
+    filter2 m (u₁ ++ u₂) = filter2 m u₁ ++ filter2 m u₂ := by
+  simp [filter2, List.filterMap_append]
+
+theorem filter1_append (m : Monitor) (u₁ u₂ : Updates) :
+    filter1 m (u₁ ++ u₂) = filter1 m u₁ ++ filter1 m u₂ := by
+  simp [filter1, List.filterMap_append]
+
+/-- a row reported for an update is reported whatever other rows, of this or of other tables, the same
+    transaction changed -/
+theorem reported_whatever_else_changed (m : Monitor) (before u after : Updates) (n : Notif2)
+    (hn : n ∈ filter2 m u) : n ∈ filter2 m (before ++ u ++ after) := by
+  simp [filter2_append, hn]
+
+/-- and only what some part yields is reported -/
+theorem reported_stems_from_a_part (m : Monitor) (u₁ u₂ : Updates) (n : Notif2)
+    (hn : n ∈ filter2 m (u₁ ++ u₂)) : n ∈ filter2 m u₁ ∨ n ∈ filter2 m u₂ := by
+  simpa [filter2_append] using hn
+
+/-! Non-vacuity: two monitored tables in one transaction; the change in `T` is in an unmonitored column
+    (nothing to report for `T`), the change in `U` is reported all the same. -/
+def exMon2 : Monitor := [("T", { columns := some ["name"] }), ("U", { columns := none })]
+example : (filter2 exMon2 [(("T", "u1"), ru [("n", .atom (.int 1))]),
+                           (("U", "u2"), ru [("x", .atom (.int 2))])]).map (fun n => (n.table, n.uuid))
+    = [("U", "u2")] := by decide
+
 end Ovsdb.C07
